@@ -66,6 +66,7 @@ type Contracts struct {
 	Specs  map[string]*SpecFunc
 	SMT    map[string][]string // mode ("int","bv","any") -> raw prelude lines
 	Lemmas []*Lemma
+	NonNil map[string]bool // typeIDs declared never-nil (verif:nonnil)
 	Errs   []string
 }
 
@@ -268,6 +269,15 @@ func (c *Contracts) LoadFile(path, source string) error {
 				}
 				rest := strings.TrimSpace(strings.TrimPrefix(raw, "// verif:"+fields[0]))
 				c.SMT[mode] = append(c.SMT[mode], rest)
+				curF, curL, curLemma = nil, nil, nil
+			case "nonnil":
+				// type invariant (trusted): values of this named pointer/interface type are never nil
+				if len(fields) >= 2 {
+					if c.NonNil == nil {
+						c.NonNil = map[string]bool{}
+					}
+					c.NonNil[sanitize(fields[1])] = true
+				}
 				curF, curL, curLemma = nil, nil, nil
 			case "lemma":
 				// lemma name [arith=..] ; then //@ vars x T, y T ; requires/ensures
